@@ -1,7 +1,7 @@
 (** C09 - Snapshot edge-list files round-trip the presence relation.
     [GoodG g]: removal-enabled, canonical timelines, well-formed adjacency (every reachable graph: C09_good). *)
 From DynVerif Require Import Base Graph Derived Spec Annotate IO.
-From DynVerif.proofs Require Import CoreInv C01Facts QueryFacts DerivedFacts IOFacts.
+From DynVerif.proofs Require Import CoreInv C01Facts QueryFacts LogInv DerivedFacts IOFacts ReplayFacts LogRead TextRoundTrip.
 
 Theorem C09_good : forall dir cs, GoodG (run_calls (G0 dir) cs).
 Proof. intros. destruct (Good_reach dir cs) as (H1 & H2 & H3). split; [exact H1|split; [exact H2|exact H3]]. Qed.
@@ -39,6 +39,14 @@ Print Assumptions C09_text.
 Theorem C09_decimal : forall z, parse_int (render_int z) = Some z.
 Proof. exact parse_int_render. Qed.
 Print Assumptions C09_decimal.
+
+(** FILE round trip at text level: the lines write_snapshots emits (one rendered row per line, delimiter d), read by
+    the text reader (comment marker m), give a graph of the same class with the same presence relation *)
+Theorem C09_file_roundtrip : forall g m d, GoodG g -> ~ rchar m -> ~ rchar d -> m <> d -> is_ws d = false ->
+  exists H, read_snapshots_text (g_dir g) m (Some d) false (map (render_snap_row d) (gen_snapshots g)) = TxOk H /\
+            g_dir H = g_dir g /\ forall u v tau, has_interaction H u v (Some tau) = has_interaction g u v (Some tau).
+Proof. exact snapshot_file_roundtrip. Qed.
+Print Assumptions C09_file_roundtrip.
 
 Example C09_example :
   gen_snapshots (run_calls (G0 true) [mkCall 1 2 0 (Some 2); mkCall 2 1 1 None; mkCall 1 2 4 None])
